@@ -601,7 +601,7 @@ func fpathEqualsDpath(r *ev.Run, count int) {
 				continue
 			}
 			a, b := lib.Observe(base), lib.Observe(dm)
-			if a != b || math.Float64bits(base.Score()) != math.Float64bits(dm.Score()) {
+			if a != b || math.Float64bits(base.Score()+0) != math.Float64bits(dm.Score()+0) {
 				r.Violate(ev.Violation{Kind: "assigned-fields-object-differs-from-decoded", Case: map[string]any{"cvss": 3, "decoder": "environmental", "vector": s, "path": "one decoded object whose exported fields (Ver included) were re-assigned to this vector's values"},
 					Observed: a.String(), Expected: b.String() + "  (a fresh decode of the vector)"})
 			}
